@@ -173,7 +173,9 @@ def _escape_string(value: str, quote: str) -> str:
             buf.append("\\$")
         elif ch in _STRING_ESCAPES:
             buf.append(_STRING_ESCAPES[ch])
-        elif ch.isprintable():
+        elif ch.isprintable() or "\ud800" <= ch <= "\udfff":
+            # A lone surrogate can only be written raw: `unescape` reads
+            # `\uD800`-`\uDFFF` escapes as halves of a surrogate pair.
             buf.append(ch)
         else:
             code_point = ord(ch)
